@@ -20,8 +20,9 @@ from sfv import gen
 from sfv.canon import tok, untok, err_cat, dtype_tok, array_toks, frame_snapshot, series_snapshot
 from sfv.tbwire import Interner, tb_wire_from_blocks, answer_tb, real_tb_view
 from sfv import ops
+from sfv.props import c03_binop   # binary operators: operand splitting of TypeBlocks._ufunc_binary_operator (cases 'bo_*')
 
-TARGETS = ['SFModel.Props.C03']
+TARGETS = ['SFModel.Props.C03'] + c03_binop.TARGETS
 THEOREMS = [
     'SF.C03.cols_wf', 'SF.C03.fromBlocks_sound', 'SF.C03.index_spec', 'SF.C03.contiguous_pairs_expand',
     'SF.C03.contiguous_pairs_total', 'SF.C03.extract_refines', 'SF.C03.layout_unobservable_extract',
@@ -29,14 +30,14 @@ THEOREMS = [
     'SF.C03.caches_ofBlocks_coherent', 'SF.C03.caches_append_coherent', 'SF.C03.caches_history_coherent',
     'SF.C03.caches_history_row_dtype', 'SF.C03.caches_grown_from_empty', 'SF.C03.row_dtype_history_differs',
     'SF.C03.row_dtype_history_agrees_of_preserving',
-]
-PARTIAL = []
-CORR_ONLY = ['every single-frame public operation of harness/sfv/ops.py not mirrored in Blocks.lean is covered by the two-layout oracle only']
+] + c03_binop.THEOREMS
+PARTIAL = [] + c03_binop.PARTIAL
+CORR_ONLY = ['every single-frame public operation of harness/sfv/ops.py not mirrored in Blocks.lean is covered by the two-layout oracle only'] + c03_binop.CORR_ONLY
 RULE = ('tb: random frames (<=4 rows, <=6 cols, dtype runs) x random layout x op x keys, model vs real TypeBlocks; '
         'layout: random frame x two different layouts with equal per-column dtypes x one operation of the catalogue '
         '(thorough: every layout of the frame); non-trivial = at least two columns and, for layout cases, two distinct layouts; '
-        'distinct = distinct canonical case JSON')
-TRUSTED = ['NumPy indexing of one block is a model parameter (list selection), validated by the tb correspondence']
+        'distinct = distinct canonical case JSON; ' + c03_binop.RULE)
+TRUSTED = ['NumPy indexing of one block is a model parameter (list selection), validated by the tb correspondence'] + c03_binop.TRUSTED
 ASSUMPTIONS = ['the operation catalogue (harness/sfv/ops.py) samples the public single-frame interface; operations outside it are not exercised']
 BUDGET = {'quick': 200, 'thorough': 1700}
 
@@ -44,6 +45,8 @@ TB_OPS = ['extract', 'drop_c', 'drop_r', 'drop_rc', 'slices0', 'slices1', 'astyp
 
 
 def nontrivial(c):
+    if c['k'].startswith('bo_'):
+        return c03_binop.nontrivial(c)
     if c['k'] == 'tb':
         return len(c['spec']['cols']) >= 2
     if c['k'] == 'layout':
@@ -61,6 +64,7 @@ def same_dtype_layouts(spec, rng, want=2, limit=40):
 
 
 def cases(ctx):
+    yield from c03_binop.cases(ctx)   # own random stream ('binop'): the streams below are unchanged
     rng = ctx.rng('main')
     quick = ctx.tier == 'quick'
     for i in range(5000 if quick else 40000):
@@ -230,6 +234,8 @@ def history_wire(c):
 
 
 def model_lines(c):
+    if c['k'].startswith('bo_'):
+        return c03_binop.model_lines(c)
     if c['k'] == 'coher':
         w = history_wire(c)
         c['_clash'] = w is None
@@ -270,6 +276,8 @@ def model_lines(c):
 
 
 def evaluate(ctx, c, outs):
+    if c['k'].startswith('bo_'):
+        return c03_binop.evaluate(ctx, c, outs)
     if c['k'] == 'tb':
         return eval_tb(ctx, c, outs)
     if c['k'] == 'layout':
